@@ -2222,6 +2222,15 @@ class SymExec(object):
                     continue
                 return False
             return True
+        # a body that calls a helper with statements of its own (guards that raise, a search, early returns) is not a
+        # comprehension: the helper's paths have to be walked
+        if self.modtree is not None:
+            for c_ in ast.walk(s):
+                if isinstance(c_, ast.Call) and isinstance(c_.func, ast.Name):
+                    for d_ in self.modtree.body:
+                        if isinstance(d_, ast.FunctionDef) and d_.name == c_.func.id and not _expression_like(d_) and _forkable(d_) \
+                                and d_.name not in self.no_inline and self.canonical(d_.name) not in self.no_inline:
+                            return False
         is_dict = False
         if not shape(s.body) or len(accs) != 1:
             accs.clear()
